@@ -909,7 +909,7 @@ def run(tier, seed, replay=None):
         else:
             check_circuit(rep, r, syms, mk(), fam)
     plan = [("tensor", 30), ("bubble", 16), ("repeat_pure", 8), ("repeat_default", 3), ("pure", 12),
-            ("default_pure", 4), ("default_mixed", 4)] if quick \
+            ("default_pure", 3), ("default_mixed", 4)] if quick \
         else [("tensor", 160), ("bubble", 80), ("repeat_pure", 50), ("repeat_default", 16), ("pure", 60),
               ("default_pure", 28), ("default_mixed", 22)]
     walls = {"witnesses": round(time.time() - t0, 2)}
